@@ -232,8 +232,33 @@ def install_wrappers():
         _emit(["rollback-done"])
   E._undo_to_checkpoint = _undo_to_checkpoint
 
-  orig_init_new = UA.InitNewDoc.__wrapped__ if hasattr(UA.InitNewDoc, "__wrapped__") else None
+  orig_rebuild = E.rebuild_usercode
+
+  def rebuild_usercode(self):
+    if REC.fault and REC.active is not None:
+      REC.fault("usercode", None)
+    return orig_rebuild(self)
+  E.rebuild_usercode = rebuild_usercode
   _installed.append(True)
+
+
+class FaultAt(object):
+  """Raise InjectedFault at the k-th fault-site event of a bundle (sites: entry and exit of every
+  doc action performed through _do_doc_action, entry of every rebuild_usercode)."""
+  def __init__(self, k, kinds=("doc-entry", "doc-exit", "usercode")):
+    self.k = k
+    self.n = 0
+    self.fired = None
+    self.kinds = kinds
+
+  def __call__(self, site, info):
+    if site not in self.kinds:
+      return
+    if self.n == self.k and self.fired is None:
+      self.fired = (site, (info[1][0] if info else None))
+      self.n += 1
+      raise InjectedFault("injected at site %d (%s %s)" % (self.k, site, self.fired[1]))
+    self.n += 1
 
 
 # --------------------------------------------------------------------------- Doc
